@@ -45,13 +45,21 @@ def kindSchema : CField → Schema
   | .string .. => sStringField | .bool .. => sBoolField | .bytes .. => sBytesField
   | .date .. => sDateField | .decimal .. => sDecimalField | .timestamp .. => sTimestampField
   | .integer .. => sIntegerField | .float .. => sFloatField | .key .. => sKeyField
-  | _ => sAnyField
+  | .any => sAnyField
+  | .objectRef .. => sObjectField | .objectInl .. => sObjectField
+  | .oneofRef .. => sOneofField | .oneofInl .. => sOneofField
+  | .enumRef .. => sEnumField | .enumInl .. => sEnumField
+  | .array .. => sArrayField | .map .. => sMapField
 
 def kindSpec : CField → BlockSpec
   | .string .. => specStringField | .bool .. => specBoolField | .bytes .. => specBytesField
   | .date .. => specDateField | .decimal .. => specDecimalField | .timestamp .. => specTimestampField
   | .integer .. => specIntegerField | .float .. => specFloatField | .key .. => specKeyField
-  | _ => specAnyField
+  | .any => specAnyField
+  | .objectRef .. => specObjectField | .objectInl .. => specObjectField
+  | .oneofRef .. => specOneofField | .oneofInl .. => specOneofField
+  | .enumRef .. => specEnumField | .enumInl .. => specEnumField
+  | .array .. => specArrayField | .map .. => specMapField
 
 /-- the proto oneof of `j5.schema.v1.Field` -/
 def gField : Str × List Nat := (b!"j5.schema.v1.Field.type", [])
